@@ -250,6 +250,24 @@ def check(ctx):
     r6.check(okc, 'a non-class return type must be the constructed type itself', mt.rel, ICS.func.lineno,
              'when the returned type is not a class (boxed, record) and differs from the type the function is named after, _is_constructor can still accept it '
              '(class test on %s, equality test %s): foo_button_new_rect() returning FooRect becomes a constructor of FooButton' % (cls_atoms, neq), detail=cls_atoms)
+    # the ancestor walk only follows .parent_type of classes: the owner found by prefix can be a boxed record/union (F13)
+    PT = re.compile(r'^(.*)\.parent_type$')
+    unguarded = []
+    n_pt = 0
+    for e in ICS.effects:
+        for b_ in gsa.atoms(e.cond):
+            mpt = PT.match(b_)
+            if not mpt:
+                continue
+            n_pt += 1
+            a_ = 'isinstance(%s, ast.Class)' % mpt.group(1)
+            rest = gsa.assign(e.cond, {a_: False})
+            if b_ in gsa.atoms(rest) and not gsa.equiv(gsa.assign(rest, {b_: True}), gsa.assign(rest, {b_: False})):
+                unguarded.append((e.line, b_))      # the effect still depends on x.parent_type when x is not a class
+    r6.check(n_pt >= 1 and not unguarded, 'parent_type is read only from classes during the ancestor walk', mt.rel, ICS.func.lineno,
+             '_is_constructor evaluates %s without requiring that object to be an ast.Class: a *_new_* function that carries the prefix of a registered boxed '
+             'record/union and returns a class makes the scanner abort with AttributeError instead of not pairing it' % sorted(set(b_ for l_, b_ in unguarded)),
+             detail=sorted(set(unguarded))[:4])
     gdm = py.mod('gdumpparser')
     am_ = py.mod('ast')
 
